@@ -446,7 +446,8 @@ func c13Check(c C13Case, cx *h.Ctx) *h.Failure {
 	}
 	mag := magnitudeOf(model)
 	tau := 1e-9 * mag
-	hullG := g.ConvexHull()
+	var hullG geom.Geometry
+	h.Lib("ConvexHull", func() { hullG = g.ConvexHull() })
 	hull := gm.FromGeom(hullG)
 	desc := func() string { return "\ng = " + clip(model.String(), 500) }
 	if f := c13HullCheck(pts, hull, exactMode, tau); f != nil {
@@ -472,8 +473,9 @@ func c13Check(c C13Case, cx *h.Ctx) *h.Failure {
 	if hull.T == gm.Polygon && len(hull.Rings) > 0 {
 		minA, minW = c13MinRects(hullRing(hull))
 	}
-	ra := gm.FromGeom(geom.RotatedMinimumAreaBoundingRectangle(g))
-	rw := gm.FromGeom(geom.RotatedMinimumWidthBoundingRectangle(g))
+	var ra, rw gm.G
+	h.Lib("RotatedMinimumAreaBoundingRectangle", func() { ra = gm.FromGeom(geom.RotatedMinimumAreaBoundingRectangle(g)) })
+	h.Lib("RotatedMinimumWidthBoundingRectangle", func() { rw = gm.FromGeom(geom.RotatedMinimumWidthBoundingRectangle(g)) })
 	if len(pts) == 0 {
 		if !ra.IsEmpty() || !rw.IsEmpty() {
 			return h.Failf("rect/empty", "rotated rectangles of an empty geometry: %s / %s", ra, rw)
